@@ -17,19 +17,19 @@ const MAX_PACKET: usize = 16 * 1024;
 #[derive(Clone, Debug, Serialize, Deserialize)]
 pub struct PeerSpec {
     /// < 8: key-pool peer, otherwise synthetic
-    peer: u16,
+    pub peer: u16,
     /// addresses without the trailing /p2p (the harness appends the normal-form suffix)
-    addrs: Vec<Vec<Comp>>,
-    conn: u8,
+    pub addrs: Vec<Vec<Comp>>,
+    pub conn: u8,
 }
 
 #[derive(Clone, Debug, Serialize, Deserialize)]
 pub struct RecSpec {
-    key: Vec<u8>,
-    value: Vec<u8>,
-    publisher: Option<u16>,
+    pub key: Vec<u8>,
+    pub value: Vec<u8>,
+    pub publisher: Option<u16>,
     /// whole seconds of remaining lifetime
-    ttl_secs: Option<u32>,
+    pub ttl_secs: Option<u32>,
 }
 
 #[derive(Clone, Debug, Serialize, Deserialize)]
@@ -250,11 +250,11 @@ pub enum Raw {
     MutatedPayload { msg: Msg, muts: Vec<Mutation> },
 }
 
-fn frame(payload: &[u8]) -> Vec<u8> {
+pub fn frame(payload: &[u8]) -> Vec<u8> {
     vcore::refcodec::lp(payload)
 }
 
-fn encode_any(m: &Msg) -> Vec<u8> {
+pub fn encode_any(m: &Msg) -> Vec<u8> {
     match build(m, Instant::now()) {
         Built::Req(r) => req_to_bytes(r, MAX_PACKET).unwrap_or_default(),
         Built::Resp(r) => resp_to_bytes(r, MAX_PACKET).unwrap_or_default(),
@@ -276,18 +276,32 @@ fn raw_check(r: &Raw) -> Outcome {
             (frame(&apply_mutations(&payload, muts)), "mutated-payload")
         }
     };
-    let mut labels = vec![label];
+    match bytes_oracle(&bytes) {
+        Err((sig, detail)) => Outcome::fail(sig, detail),
+        Ok((nontrivial, mut labels)) => {
+            labels.insert(0, label);
+            Outcome::pass_l(nontrivial, labels)
+        }
+    }
+}
+
+/// The arbitrary-bytes oracle (shared with the fuzz target `kad_wire`): both decoders return
+/// without panicking, and whatever decodes re-encodes and decodes to the same message.
+/// Ok((non-trivial, labels)); non-trivial = the bytes got past the length prefix.
+pub fn bytes_oracle(bytes: &[u8]) -> Result<(bool, Vec<&'static str>), (String, serde_json::Value)> {
+    let mut labels = vec![];
+    let fail = |sig: &str, d: serde_json::Value| -> Result<(bool, Vec<&'static str>), (String, serde_json::Value)> { Err((sig.to_string(), d)) };
     // bracket for the expiry comparison: taken before the first decode
     let t0 = Instant::now();
-    let rq = catch(|| req_from_bytes(&bytes, MAX_PACKET));
-    let rs = catch(|| resp_from_bytes(&bytes, MAX_PACKET));
+    let rq = catch(|| req_from_bytes(bytes, MAX_PACKET));
+    let rs = catch(|| resp_from_bytes(bytes, MAX_PACKET));
     let rq = match rq {
         Ok(x) => x,
-        Err(p) => return Outcome::fail("C44:request-decoder-panicked-on-arbitrary-bytes", json!({"panic": p, "bytes": bytes})),
+        Err(p) => return fail("C44:request-decoder-panicked-on-arbitrary-bytes", json!({"panic": p, "bytes": bytes})),
     };
     let rs = match rs {
         Ok(x) => x,
-        Err(p) => return Outcome::fail("C44:response-decoder-panicked-on-arbitrary-bytes", json!({"panic": p, "bytes": bytes})),
+        Err(p) => return fail("C44:response-decoder-panicked-on-arbitrary-bytes", json!({"panic": p, "bytes": bytes})),
     };
     // whatever decoded successfully is itself a message: it must survive a second trip unchanged
     let mut decoded_any = false;
@@ -299,15 +313,17 @@ fn raw_check(r: &Raw) -> Outcome {
             Ok(Ok((Some(m2), 0))) => {
                 let (mut a, mut b) = (m.clone(), m2.clone());
                 let (ea, eb) = (strip_req(&mut a), strip_req(&mut b));
-                ensure!(a == b, "C44:decoded-request-not-a-fixed-point", json!({"first": format!("{m:?}"), "second": format!("{m2:?}")}));
+                if a != b {
+                    return fail("C44:decoded-request-not-a-fixed-point", json!({"first": format!("{m:?}"), "second": format!("{m2:?}")}));
+                }
                 if let (Some(ea), Some(eb)) = (ea, eb) {
                     if let Err(sig) = expiry_ok(ea, eb, t0.elapsed()) {
-                        return Outcome::fail(sig, json!({"first": format!("{m:?}"), "second": format!("{m2:?}")}));
+                        return fail(sig, json!({"first": format!("{m:?}"), "second": format!("{m2:?}")}));
                     }
                 }
             }
-            Ok(other) => return Outcome::fail("C44:decoded-request-does-not-reencode", json!({"msg": format!("{m:?}"), "got": format!("{other:?}")})),
-            Err(p) => return Outcome::fail("C44:reencode-panic", json!({"panic": p})),
+            Ok(other) => return fail("C44:decoded-request-does-not-reencode", json!({"msg": format!("{m:?}"), "got": format!("{other:?}")})),
+            Err(p) => return fail("C44:reencode-panic", json!({"panic": p})),
         }
     }
     if let Ok((Some(m), _)) = &rs {
@@ -318,15 +334,17 @@ fn raw_check(r: &Raw) -> Outcome {
             Ok(Ok((Some(m2), 0))) => {
                 let (mut a, mut b) = (m.clone(), m2.clone());
                 let (ea, eb) = (strip_resp(&mut a), strip_resp(&mut b));
-                ensure!(a == b, "C44:decoded-response-not-a-fixed-point", json!({"first": format!("{m:?}"), "second": format!("{m2:?}")}));
+                if a != b {
+                    return fail("C44:decoded-response-not-a-fixed-point", json!({"first": format!("{m:?}"), "second": format!("{m2:?}")}));
+                }
                 if let (Some(ea), Some(eb)) = (ea, eb) {
                     if let Err(sig) = expiry_ok(ea, eb, t0.elapsed()) {
-                        return Outcome::fail(sig, json!({"first": format!("{m:?}"), "second": format!("{m2:?}")}));
+                        return fail(sig, json!({"first": format!("{m:?}"), "second": format!("{m2:?}")}));
                     }
                 }
             }
-            Ok(other) => return Outcome::fail("C44:decoded-response-does-not-reencode", json!({"msg": format!("{m:?}"), "got": format!("{other:?}")})),
-            Err(p) => return Outcome::fail("C44:reencode-panic", json!({"panic": p})),
+            Ok(other) => return fail("C44:decoded-response-does-not-reencode", json!({"msg": format!("{m:?}"), "got": format!("{other:?}")})),
+            Err(p) => return fail("C44:reencode-panic", json!({"panic": p})),
         }
     }
     if rq.is_err() || rs.is_err() {
@@ -336,7 +354,7 @@ fn raw_check(r: &Raw) -> Outcome {
         labels.push("incomplete-frame");
     }
     // non-trivial: the bytes got past the length prefix (an error from the protobuf/conversion layer or a decoded message)
-    Outcome::pass_l(decoded_any || rq.is_err() || rs.is_err(), labels)
+    Ok((decoded_any || rq.is_err() || rs.is_err(), labels))
 }
 
 // ---------------------------------------------------------------------------------------------
@@ -399,4 +417,5 @@ pub fn run(ctx: &mut Ctx) {
         &|| raw().boxed(),
         &raw_check,
     );
+    ctx.fuzz(&crate::fuzzapi::KAD_WIRE, 30_000, 600_000, crate::fuzzapi::KAD_WIRE_RUNS_PER_JOB, crate::fuzzapi::FUZZ_JOBS);
 }
